@@ -516,6 +516,7 @@ def run_traced(cfg, max_batches=400):
         import time as _time
         t_start = _time.time()
         step_rng = np.random.default_rng(cfg['seed'] + 29)
+        toggle_dirty = False
         while not done and k < est_batches and _time.time() - t_start < cfg.get('max_seconds', 25):
             nl0 = int(s.n_like)
             stride = 1
@@ -553,7 +554,9 @@ def run_traced(cfg, max_batches=400):
             with np.errstate(all='ignore'):
                 pred = bool(s.explored and np.all(np.asarray(s.shell_n) >= cfg['n_shell']) and s.n_eff >= cfg['n_eff'])
             tr.returns.append((nl0, int(s.n_like), bool(done), lim, timeout, pred))
-            while resume_at and resume_at[0] <= k and path is not None and os.path.exists(path):
+            if int(s.n_like) != nl0:
+                toggle_dirty = False        # a batch ran: write_shell_update has persisted the flag
+            while resume_at and resume_at[0] <= k and path is not None and os.path.exists(path) and not toggle_dirty:
                 resume_at.pop(0)
                 old_bids = [tr.bid(b) for b in s.bounds]
                 old_tables = {tr.bid(b): b for b in s.bounds}
@@ -582,6 +585,7 @@ def run_traced(cfg, max_batches=400):
                 v = not s._discard_exploration
                 before = _stat_bytes(s)
                 s.discard_exploration = v
+                toggle_dirty = True          # not on disk until the next batch: a resume now would (rightly) not see it
                 tr.event('SD %d' % (1 if v else 0))
                 tr.stats['sd'] += 1
                 tr.snapshot(s, 'set_discard')
